@@ -127,6 +127,14 @@ def body(v_real, assume, prop, nogo, rng):
     last_stage = [c for c in calls if c[3] == bool(nogo)] if nogo else [c for c in calls if not c[3]]
     produced = sorted(tuple(sorted((_det(x), _det(y)) for x, y in c[1])) for c in last_stage if len(c[1]) > 0)
     cs.append(sorted(tuple(sorted((_det(x), _det(y)) for x, y in f)) for f in finals) == produced)
+    # directly on what is returned, against the polygons as the user gave them (independent of which filtering calls were made):
+    # every borehole of every final field is inside / on the contour of a property outline and not inside / on any no-go zone
+    given_prop = [list(map(tuple, pl)) for pl in prop]
+    given_nogo = [list(map(tuple, pl)) for pl in nogo]
+    for f in finals:
+        cs.append(stage_checks(f, f, given_prop, False, True))
+        if given_nogo:
+            cs.append(stage_checks(f, f, given_nogo, True, False))
     # property stage keeps the contour, the no-go stage does not (documented defaults)
     cs += [c[4] is True for c in calls if not c[3]] + [c[4] is False for c in calls if c[3]]
     return cs
@@ -226,6 +234,7 @@ CONFIGS = {
     'rect_nogo': dict(prop=[[(0.0, 0.0), (48.0, 0.0), (48.0, 32.0), (0.0, 32.0)]], nogo=[[(16.0, 8.0), (32.0, 8.0), (32.0, 24.0), (16.0, 24.0)]]),
     'two_outlines_cw': dict(prop=[[(0.0, 0.0), (0.0, 30.0), (18.0, 30.0), (18.0, 0.0)], [(24.0, 5.0), (45.0, 5.0), (45.0, 36.0), (24.0, 36.0)]], nogo=[]),
     'two_outlines_small_last': dict(prop=[[(0.0, 0.0), (45.0, 0.0), (45.0, 36.0), (0.0, 36.0)], [(50.0, 2.0), (58.0, 2.0), (58.0, 12.0), (50.0, 12.0)]], nogo=[]),
+    'rect_nogo_cw': dict(prop=[[(0.0, 0.0), (48.0, 0.0), (48.0, 32.0), (0.0, 32.0)]], nogo=[[(16.0, 24.0), (32.0, 24.0), (32.0, 8.0), (16.0, 8.0)]]),      # clockwise no-go zone
     'convex_offset': dict(prop=[[(5.0, 3.0), (38.0, 0.0), (46.0, 22.0), (25.0, 41.0), (2.0, 30.0)]], nogo=[[(20.0, 12.0), (28.0, 12.0), (28.0, 20.0)]]),
     'U_two_nogo': dict(prop=[[(0.0, 0.0), (50.0, 0.0), (50.0, 40.0), (35.0, 40.0), (35.0, 15.0), (15.0, 15.0), (15.0, 40.0), (0.0, 40.0)]],
                        nogo=[[(3.0, 3.0), (9.0, 3.0), (9.0, 9.0), (3.0, 9.0)], [(40.0, 20.0), (47.0, 20.0), (47.0, 30.0), (40.0, 30.0)]]),
@@ -238,7 +247,7 @@ def units(tier, seed):
     AS = ['polygons concrete; floats as reals for the spacing arithmetic; classification of concrete grid points natively in binary64',
           'lots admit three rows at the maximum spacing']
     us = []
-    names = list(CONFIGS) if tier == 'thorough' else ['L_shape', 'rect_nogo', 'two_outlines_cw', 'two_outlines_small_last', 'convex_offset']
+    names = list(CONFIGS) if tier == 'thorough' else ['L_shape', 'rect_nogo', 'rect_nogo_cw', 'two_outlines_cw', 'two_outlines_small_last', 'convex_offset']
     rng = (5.0, 10.0, 20.0) if tier == 'quick' else (3.0, 12.0, 25.0)
     for nm in names:
         c = CONFIGS[nm]
